@@ -202,13 +202,15 @@ class EvolveStateVector(torch.autograd.Function):
             krylov_tolerance (float): tolerance for krylov_exp
             pulser_lindblads: unused, present for compatibility with EvolveDensityMatrix
         """
+        # krylov_exp normalizes its argument in place; when `state` is part of the autograd
+        # graph, observables evaluated on it may have saved it for their own backward.
         res, ham = EvolveStateVector.evolve(
             dt,
             omegas,
             deltas,
             phis,
             interaction_matrix,
-            state,
+            state.clone() if ctx.needs_input_grad[5] else state,
             krylov_tolerance,
             pulser_lindblads,
         )
